@@ -34,7 +34,7 @@ SIZE = {"C12": 2000, "C11": 1000, "C10": 750, "C17": 400}
 # cases appended behind the first SIZE ones (so that those stay as recorded): constellations the first generator never builds -
 # a header column shared by two signals (`IO_out` is the expected column of the bidirectional IO *and* of an output or a declared
 # virtual signal that is itself called IO_out) with different widths; an input the header omits in front of listed ones
-EXTRA = {"C07": 80, "C06": 80, "C03": 60, "C14": 40, "C02": 40, "C05": 40, "C11": 300, "C13": 150, "C10": 40, "C12": 300, "C19": 80}
+EXTRA = {"C07": 80, "C06": 80, "C03": 60, "C14": 40, "C02": 40, "C05": 40, "C11": 400, "C13": 150, "C10": 40, "C12": 300, "C19": 80}
 # C11 extra cases: undamaged signal lists, but a `C` may stand in ANY column (an output's, a bidirectional signal's `_out`
 # column, a virtual signal's): the recorded verdict says which of these bind
 
@@ -523,7 +523,16 @@ def generate(focus, n=None):
             cases.append(damage_overlong(rnd, Gen(rnd, rnd.choice(["C08", "C01", "C05", "C07"])).scenario()))
             continue
         if k >= base and focus == "C11":
-            cases.append(Gen(rnd, rnd.choice(["C06", "C14", "C05"]), exotic=rnd.random() < 0.5, c_anywhere=True).scenario())
+            sc = Gen(rnd, rnd.choice(["C06", "C14", "C05"]), exotic=rnd.random() < 0.5, c_anywhere=True).scenario()
+            if k >= base + 300:
+                # a signal of ANY direction that carries the name of a declared virtual signal (C11: names are distinct, also from those)
+                sc = Gen(rnd, "C14").scenario()
+                lines = sc.split("\n")
+                sig = [i for i, l in enumerate(lines) if l.startswith("signal ")]
+                kind = rnd.choice(["in", "in", "bidir", "out"])
+                lines.insert(rnd.choice(sig + [sig[-1] + 1]), f"signal {kind} V1 {rnd.choice([1, 4, 64])}" + ("" if kind == "out" else " 0"))
+                sc = "\n".join(lines)
+            cases.append(sc)
             continue
         if k >= base:
             cases.append(Gen(rnd, focus, exotic=True).scenario())
